@@ -1120,7 +1120,13 @@ class Unit:
                 if prefix.quantify() != 1
                 else None
             ),
-            "factors": None if factors == ((self, 1),) else factors,
+            # nested as plain JSON objects, so that serializers which do not know about
+            # __json__ (pydantic's JSON mode) can write them too
+            "factors": (
+                None
+                if factors == ((self, 1),)
+                else [[factor.__json__(), exponent] for factor, exponent in factors]
+            ),
         }
 
     @classmethod
@@ -1128,9 +1134,18 @@ class Unit:
         if not json_object["factors"]:
             return cls._by_name[json_object["name"]]
 
+        # MeasuredJSONDecoder has already turned the nested objects into instances;
+        # a plain JSON parser (pydantic) hands them over as dictionaries
         prefix = json_object["prefix"] or Prefix(0, 0)
-        factors = dict(json_object["factors"])
+        if isinstance(prefix, dict):
+            prefix = Prefix.__from_json__(prefix)
+        factors = {
+            (cls.__from_json__(factor) if isinstance(factor, dict) else factor): exponent
+            for factor, exponent in json_object["factors"]
+        }
         dimension = json_object["dimension"]
+        if isinstance(dimension, dict):
+            dimension = Dimension.__from_json__(dimension)
         return Unit(prefix, factors, dimension)
 
     # Pydantic support
